@@ -48,6 +48,7 @@ class _Rewrite(ast.NodeTransformer):
         self.olds = olds
         self.lazy = lazy if lazy is not None else []   # old() under a quantifier: evaluated in an entry snapshot
         self.bound = []
+        self.identity = set()                           # indices of olds compared with `is`: kept as the object
 
     def visit_Lambda(self, node):
         names = [a.arg for a in node.args.args]
@@ -55,6 +56,14 @@ class _Rewrite(ast.NodeTransformer):
         node = self.generic_visit(node)
         del self.bound[len(self.bound) - len(names):]
         return node
+
+    def visit_Compare(self, node):
+        # `x is old(y)`: the entry value is wanted as the object itself (identity), never as a copy
+        if len(node.ops) == 1 and isinstance(node.ops[0], (ast.Is, ast.IsNot)):
+            for side in (node.left, node.comparators[0]):
+                if isinstance(side, ast.Call) and isinstance(side.func, ast.Name) and side.func.id == 'old':
+                    side._identity = True
+        return self.generic_visit(node)
 
     def visit_Call(self, node):
         if isinstance(node.func, ast.Name):
@@ -71,6 +80,8 @@ class _Rewrite(ast.NodeTransformer):
                                     keywords=[])
                 k = len(self.olds)
                 self.olds.append(node.args[0])
+                if getattr(node, '_identity', False):
+                    self.identity.add(k)
                 return ast.Subscript(value=ast.Name(id='__old', ctx=ast.Load()),
                                      slice=ast.Constant(k), ctx=ast.Load())
             if n == 'implies':
@@ -153,7 +164,9 @@ class Clause:
         self.olds = []
         self.lazy = []
         tree = ast.parse(text.strip(), mode='eval')
-        tree.body = _Rewrite(self.olds, self.lazy).visit(tree.body)
+        rw = _Rewrite(self.olds, self.lazy)
+        tree.body = rw.visit(tree.body)
+        self.identity = rw.identity
         ast.fix_missing_locations(tree)
         self.code = compile(tree, '<contract>', 'eval')
         self.old_codes = []
@@ -203,10 +216,10 @@ class Clause:
             out.append(self.snapshot(env))
         else:
             out.append(None)
-        for c in self.old_codes:
+        for k_, c in enumerate(self.old_codes):
             try:
                 v = eval(c, env)
-                out.append(copy.deepcopy(v) if isinstance(v, (list, dict)) else v)
+                out.append(copy.deepcopy(v) if isinstance(v, (list, dict)) and k_ not in self.identity else v)
             except Exception as e:  # the old-expression may be undefined on this input
                 out.append(e)
         return out
@@ -299,17 +312,31 @@ def call_checked(key, args, callback_log=None):
         pname = c.callback['param']
         names = c.callback['args']
         user_cb = args.get(pname)
+        # ghost state of the callee (document order, last delimiter, ...): initialised from the contract and
+        # updated after every invocation exactly as the verifier does
+        ghost = {}
+        for g, (GT, init) in c.ghost.items():
+            try:
+                ghost[g] = eval(init, dict(env))
+            except Exception:
+                ghost[g] = None
 
         def cb(*a):
             cenv = dict(env)
+            cenv.update(ghost)
             cenv.update(zip(names, a))
             for r in c.callback['requires']:
                 try:
                     ok = clause(r).eval(cenv)
                 except Exception as e:
-                    ok = False
+                    ok = True       # a clause that cannot be evaluated at run time decides nothing
                 if not ok:
                     cb_fail.append((r, a))
+            for g, expr in c.callback.get('ghost_update', []):
+                try:
+                    ghost[g] = clause(expr).eval(cenv)
+                except Exception:
+                    pass
             if callback_log is not None:
                 callback_log.append(a)
             if callable(user_cb):
